@@ -7,6 +7,7 @@ import (
 	"regexp"
 	"strconv"
 	"strings"
+	"time"
 
 	"github.com/enbility/ship-go/model"
 	"github.com/enbility/ship-go/ship"
@@ -24,7 +25,17 @@ func jsonPart(msg []byte) []byte {
 	if len(msg) == 0 {
 		return nil
 	}
-	return ship.JsonFromEEBUSJson(msg[1:])
+	// the transform is the implementation's own: under a deadline, so that a version of it that
+	// does not return cannot wedge the generator (the handler that gets this message hangs in
+	// the same call and is recorded as OHang by the deadline around it)
+	done := make(chan []byte, 1)
+	go func() { done <- ship.JsonFromEEBUSJson(msg[1:]) }()
+	select {
+	case b := <-done:
+		return b
+	case <-time.After(3 * time.Second):
+		return nil
+	}
 }
 
 func optN(p *uint) string {
